@@ -164,4 +164,11 @@ def render_single(c):
         return 'select %s from %s where exists (select 1 from int1.t3 where t3.b = %sb and t3.c = 1)' % (a, t1, o)
     if b == 'case-insensitive':
         return 'select %s from %s where %s = 1' % (a, t1.replace('int1.', 'INT1.'), bb)
+    # selects WITHOUT a FROM clause that still read the integration (through scalar sub-selects / outer columns)
+    if b == 'fromless-scalars':
+        return 'select (select max(%s) from %s) as m, (select count(*) from int1.t2) as n' % (a, t1)
+    if b == 'union-fromless-branch':
+        return 'select %s from %s union select (select max(a) from int1.t2)' % (a, t1)
+    if b == 'fromless-subselect-outer-column':
+        return 'select %s, (select %sb + 1) as b1 from %s' % (a, o, t1)
     raise ValueError(b)
